@@ -162,6 +162,10 @@ pub enum OpKind {
     ResendStale { k: usize, j: usize },
     /// let more than a second of wall-clock time pass (snapshot times have one-second resolution)
     Pause,
+    /// days pass (positive) or the clock is stepped back (negative): the time stamp of the client's
+    /// stored snapshot is moved by that many days through the public storage API, everything else
+    /// (version, bytes, versions-since) is written back as read
+    ShiftSnapshotTime { days_older: i64 },
 }
 
 #[derive(Clone, Debug, PartialEq)]
@@ -188,6 +192,7 @@ impl Op {
             }
             OpKind::Resend { k } => json!({"c": self.client, "op": "AddVersion(resend of accepted #k)", "k": k}),
             OpKind::Pause => json!({"c": self.client, "op": "Pause(1.1 s)"}),
+            OpKind::ShiftSnapshotTime { days_older } => json!({"c": self.client, "op": "ShiftSnapshotTime", "days_older": days_older}),
             OpKind::ResendStale { k, j } => json!({"c": self.client, "op": "AddVersion(payload of accepted #k, parent of accepted #j)", "k": k, "j": j}),
         }
     }
@@ -201,6 +206,7 @@ impl Op {
             OpKind::Resend { .. } => "Resend",
             OpKind::ResendStale { .. } => "ResendStale",
             OpKind::Pause => "Pause",
+            OpKind::ShiftSnapshotTime { .. } => "ShiftSnapshotTime",
         }
     }
 }
